@@ -193,3 +193,21 @@ Proof.
   - cbn [remove_builtins_def]. destruct (str_eqb (iname (dd_name dd)) ts_type_name) eqn:E; [reflexivity|].
     cbn [flat_map remove_builtins_def app]. rewrite E. reflexivity.
 Qed.
+
+(** ** order: removing the one application of [@n] from a directive list, wherever it stands, leaves
+    the other applications exactly as they were, in their order (the model of the plugin and of
+    [remove_builtins] is a [filter]; an implementation that moved another application into the hole
+    would not agree with it) *)
+Lemma drop_dirs_app n a b0 : drop_dirs n (a ++ b0) = drop_dirs n a ++ drop_dirs n b0.
+Proof. unfold drop_dirs. apply filter_app. Qed.
+
+Theorem strip_keeps_order : forall n a m b0,
+  dir_named n m = true -> has_dir n a = false -> has_dir n b0 = false ->
+  drop_dirs n (a ++ m :: b0) = a ++ b0.
+Proof.
+  intros n a m b0 Hm Ha Hb.
+  assert (Ea : drop_dirs n a = a) by (exact (erase_dirs_id n a Ha)).
+  assert (Eb : drop_dirs n b0 = b0) by (exact (erase_dirs_id n b0 Hb)).
+  rewrite drop_dirs_app, Ea. f_equal.
+  unfold drop_dirs in *. cbn [filter]. rewrite Hm. cbn [negb]. exact Eb.
+Qed.
